@@ -313,3 +313,14 @@ void h_exit_to_primary(void)
     ABTI_ythread_exit_to_primary(&glob, &xs, &self);
     VF_ASSERT(0, "never returns");
 }
+
+/* C03/C12: wake-up of the joiner when the target is cancelled / exits to another ULT */
+void h_resume_joiner(void)
+{
+    setup(); setup_joiner(); int j0 = poolJ.num_blocked.val;
+    ABTI_ythread_resume_joiner(&xs, &self);
+    if (vf_joiner_choice == NULL) VF_ASSERT(n_futex_resume == 0 && vf_other_pushes == 0 && vf_n_dec == 0, "no joiner: nobody woken");
+    else if (joiner.thread.type == ABTI_THREAD_TYPE_EXT) VF_ASSERT(n_futex_resume == 1 && vf_other_pushes == 0 && vf_n_dec == 0, "external-thread joiner: released through its futex exactly once (never pushed: it is not a work unit)");
+    else VF_ASSERT(n_futex_resume == 0 && vf_other_pushes == 1 && vf_other_pushed == &joiner.thread && vf_n_dec == 1 && vf_dec_pool == &poolJ && poolJ.num_blocked.val == j0 - 1, "ULT joiner: resumed by push exactly once, its pool's blocked count -1");
+    VF_REACH("resume_joiner"); VF_COVER(vf_joiner_choice && joiner.thread.type == ABTI_THREAD_TYPE_EXT, "external");
+}
